@@ -21,7 +21,7 @@ ASSUMPTIONS = ["placement geometry (rotate about the shape's own centre, then tr
                "well-formed trajectories (state i carries time step t0+i) as the property's horizon notion presupposes",
                "enclosure for uncertain states is sampled (40 poses x shape vertices), a test not a theorem; the proved part is "
                "C04_extent_le_small/_max, C04_enclosure_box/_long"]
-EXTRA_MODULES = ['CRProps.T17']      # translator tie: Gen.Src (regenerated from /repo every run) = hand model
+EXTRA_MODULES = ["CRProps.T17", "CRProps.T04"]      # translator tie: Gen.Src (regenerated from /repo every run) = hand model
 REQUIRED_BUCKETS = ["role/static", "role/dynamic-traj", "role/dynamic-set", "role/dynamic-none", "role/phantom", "role/environment",
                     "state/PMState", "t/before", "t/initial", "t/inside", "t/after", "uncertain/orientation", "uncertain/position",
                     "scenario/role-filter", "scenario/position-interval", "shape/group", "shape/poly",
